@@ -502,6 +502,80 @@ theorem readAll_isSome {α : Type} (f : List Nat → Option α) (reads : List (L
       | none => rw [hr] at h2; simp at h2
       | some xs => simp
 
+/-! ### start corners of neighbouring boxes -/
+
+theorem vadd_set_set (s q : List Nat) (axis o r : Nat) :
+    vadd (s.set axis o) (q.set axis r) = (vadd s q).set axis (o + r) := by
+  induction s generalizing q axis with
+  | nil => simp
+  | cons x xs ih =>
+    cases q with
+    | nil => simp
+    | cons y ys =>
+      cases axis with
+      | zero => simp
+      | succ axis => simp [ih]
+
+theorem starts_boxOf_set (ghost : Bool) (axes : List (List Nat)) (idx : List Nat) (axis k' : Nat)
+    (h : InRange idx (axes.map List.length)) (hax : axis < axes.length) (hk : k' < (axes.getD axis []).length) :
+    starts (boxOf ghost axes (idx.set axis k')) = (starts (boxOf ghost axes idx)).set axis (offset (axes.getD axis []) k') := by
+  induction axes generalizing idx axis with
+  | nil => simp at hax
+  | cons sizes ax ih =>
+    cases idx with
+    | nil => simp at h
+    | cons i is =>
+      simp only [List.map_cons, inRange_def, inShape_cons_cons, Bool.and_eq_true, decide_eq_true_eq] at h
+      cases axis with
+      | zero =>
+        simp only [List.getD_cons_zero] at hk
+        simp [starts, sliceAt_eq ghost sizes k' hk]
+      | succ axis =>
+        simp only [List.length_cons, Nat.add_lt_add_iff_right] at hax
+        simp only [List.getD_cons_succ] at hk ⊢
+        have := ih is axis (by simpa using h.2) hax hk
+        simp only [starts] at this
+        simp [starts, this]
+
+theorem starts_boxOf_getD (ghost : Bool) (axes : List (List Nat)) (idx : List Nat) (axis : Nat)
+    (h : InRange idx (axes.map List.length)) (hax : axis < axes.length) :
+    (starts (boxOf ghost axes idx)).getD axis 0 = offset (axes.getD axis []) (idx.getD axis 0) := by
+  induction axes generalizing idx axis with
+  | nil => simp at hax
+  | cons sizes ax ih =>
+    cases idx with
+    | nil => simp at h
+    | cons i is =>
+      simp only [List.map_cons, inRange_def, inShape_cons_cons, Bool.and_eq_true, decide_eq_true_eq] at h
+      cases axis with
+      | zero => simp [starts, sliceAt_eq ghost sizes i h.1]
+      | succ axis =>
+        simp only [List.length_cons, Nat.add_lt_add_iff_right] at hax
+        have := ih is axis (by simpa using h.2) hax
+        simp only [starts] at this
+        simpa [starts] using this
+
+theorem subShapeOf_getD (axes : List (List Nat)) (idx : List Nat) (axis : Nat)
+    (h : InRange idx (axes.map List.length)) (hax : axis < axes.length) :
+    (subShapeOf axes idx).getD axis 0 = sizeAt (axes.getD axis []) (idx.getD axis 0) := by
+  induction axes generalizing idx axis with
+  | nil => simp at hax
+  | cons sizes ax ih =>
+    cases idx with
+    | nil => simp at h
+    | cons i is =>
+      simp only [List.map_cons, inRange_def, inShape_cons_cons, Bool.and_eq_true, decide_eq_true_eq] at h
+      cases axis with
+      | zero => simp
+      | succ axis =>
+        simp only [List.length_cons, Nat.add_lt_add_iff_right] at hax
+        simpa using ih is axis (by simpa using h.2) hax
+
+theorem vadd_set (s q : List Nat) (axis v : Nat) :
+    vadd s (q.set axis v) = (vadd s q).set axis (s.getD axis 0 + v) := by
+  calc vadd s (q.set axis v) = vadd (s.set axis (s.getD axis 0)) (q.set axis v) := by rw [set_getD_self]
+    _ = (vadd s q).set axis (s.getD axis 0 + v) := vadd_set_set s q axis _ v
+
 /-! ### neighbours -/
 
 /-- the decision of `get_neighbor` along one axis: the neighbour's index along the axis -/
